@@ -430,7 +430,7 @@ pub fn check_beam(c: &BeamCase, rec: &mut Rec) -> Result<(), String> {
     e.verif_set_frame_clocks(start as usize);
     let r = RegFile { pc: LOOP, sp: 0xBF00, hl: 0x4000 + off as u16, af: (value as u16) << 8, ..Default::default() };
     mach::set_regs(&mut e, &r);
-    mach::single_step(&mut e)?;
+    mach::step_over(&mut e, 1)?;
     let mut mem_before = vec![0u8; 6912];
     for b in mem_before[6144..].iter_mut() {
         *b = 0x38;
